@@ -154,7 +154,7 @@ def gen_lin(ctx, idx):
     rows = rng.randint(1, 4)
     rank = rng.choice([2, 3, 3])
     copies = 1 if rank == 2 else rng.randint(1, 3)
-    shared = rng.random() < 0.8
+    shared = True   # the fast layer is specified for copies of ONE input only (documented precondition)
     x0 = [[dy(rng, -8, 8, 4) for _ in range(nin)] for _ in range(rows)]
     if rank == 2:
         x, shared = x0, True
@@ -631,9 +631,13 @@ def run_lin(case):
         v = t64(case["v"])
         vv = v if grads[0].dim() == 3 else v[0]
         s = (grads[0] * vv).sum()
-        dd = torch.autograd.grad(s, [m.weight, g], allow_unused=True)
+        try:
+            dd = torch.autograd.grad(s, [m.weight, g], allow_unused=True)
+            ddw, ddg = [None if t is None else t.tolist() for t in dd]
+        except RuntimeError as ex:   # the first-order gradient carries no graph
+            ddw = ddg = "not differentiable: " + str(ex)[:60]
         return dict(y=y.tolist(), gx=grads[0].tolist(), gw=grads[1].tolist(), gb=grads[2].tolist() if has_b else None,
-                    ddw=dd[0].tolist(), ddg=dd[1].tolist())
+                    ddw=ddw, ddg=ddg)
 
     try:
         res["fast"] = run(mk(TrunkLinear))
@@ -654,7 +658,7 @@ def run_lin(case):
         for key, nm in names.items():
             a = y if key == "y" else f[key]
             b = ref[key]
-            if a is None and b is None:
+            if key == "gb" and not has_b:
                 continue
             if a != b:
                 res["problems"].append(f"TrunkLinear differs from torch.nn.Linear with the same weights on a shared input in the {nm}: {a} vs {b}")
